@@ -41,7 +41,7 @@ pub struct RewardMonitor {
 fn updates_rewards(op: &Op) -> bool {
     matches!(
         op,
-        Op::Swap { .. } | Op::SwapBack { .. } | Op::Increase { .. } | Op::Decrease { .. } | Op::Reposition { .. } | Op::UpdateFees { .. } | Op::SetEmissions { .. } | Op::SetEmissionsNearVault { .. }
+        Op::Swap { .. } | Op::SwapBack { .. } | Op::SwapExact { .. } | Op::Increase { .. } | Op::Decrease { .. } | Op::Reposition { .. } | Op::UpdateFees { .. } | Op::SetEmissions { .. } | Op::SetEmissionsNearVault { .. }
     )
 }
 
